@@ -82,7 +82,7 @@ def gen(run):
     run.transitions += len(combos)
     for combo in combos:
         text = K.program_for([by[n] for n in combo])
-        for sz in (32, 80):
+        for sz in ((32, 80) if len(combo) > 1 else (16, 32, 80)):
             for pn in (("prog",) if len(combo) > 1 else ("x", "program", "_a", "a1", "P" * 40, "ecb_at", "zzz", "my-prog")):
                 cases.append({"text": text, "size": sz, "procname": pn, "origin": "+".join(combo), "features": []})
     # templates x operand shapes (string literals and hoisted calls sharing one emitted line)
@@ -267,7 +267,7 @@ def cli_cases(run, scratch):
     os.makedirs(d, exist_ok=True)
     text = '10 A$=STRING$(40,"*"):PLAY "CDE":HDRAW "U1"\n20 PRINT INSTR(1,A$,"*");HEX$(1)\n'
     out = []
-    for size in (32, 33, 80, 255):
+    for size in (1, 16, 31, 32, 33, 80, 255):
         for extra in ([], ["-l"], ["-z", "-w"]):
             run.states += 1
             run.transitions += 1
